@@ -105,6 +105,11 @@ class PRepo(TRepo):
         return {k: [int(x) for x in v.split('.')] for k, v in d.items()}
 
 
+class PRepo2(PRepo):
+    """pins two components in the same file"""
+    _COMPONENTS_VERSIONS_LOCATIONS = {'comp': 'DEPENDS', 'comp2': 'DEPENDS'}
+
+
 def ancestors(commit):
     seen = {}
     todo = [commit]
